@@ -313,6 +313,10 @@ def r_getters(ctx: Ctx, model, prop="C20", rule="G-getter", only=None):
                    nontrivial_key=("getter", g, "press"))
     if only is None:
         r_getter_history(ctx, model)
+        # "mutually consistent at any subcritical temperature": also after any other getter was asked at another temperature or pressure
+        # (all ordered pairs of getters, shared with C04 R-state)
+        from .C04 import r_state
+        r_state(ctx, model, prop=prop, rule=rule)
 
 
 def r_getter_history(ctx: Ctx, model, prop="C20", rule="G-getter"):
